@@ -1,4 +1,270 @@
-(* C19 — placeholder while the proofs are being written *)
+(* C19 — The reported response states exactly what was computed for each request.
+   Property theorems only; models in Model/Response.v, proofs in Proofs/Response.v, ResponseAgg.v, ResponseCsv.v.
+
+   Vocabulary
+     obs                   what was computed for one request: id, blocking reason (option), bidir flag, selected
+                           transponder type / mode, assigned N / M lists, computed path (uid, is-transceiver), the
+                           receiver arrays of the forward and of the reverse propagation (exact rationals), reference
+                           power and path bandwidth.
+     Spec o resp           (Proofs/Response.v) the declarative statement of the property for one response document:
+                           response-id = id; served: path-properties at top level and no 'no-path'; blocked: 'no-path'
+                           with the reason, and the candidate path-properties exactly when the reason is not one of
+                           BLOCKING_NOPATH; path-properties = PPSpec: 'path-metric' states the forward receiver,
+                           'z-a-path-metric' the reverse receiver and is present iff bidir; the n-th route object has
+                           index n and states the n-th item of `expected_items` (per path element: hop object; label
+                           object zip(N,M) iff served; transponder object (selected type, mode) iff transceiver).
+     response_ok           the executable validator run by the check on every real response.
+     pathresult            the model of ResultElement.json (compared with the real output by the check).
+     round2 / round2q      round(x, 2) on the exact value, half to even.
+     joined_ok, fresh      (Proofs/ResponseAgg.v) what an aggregated request must be w.r.t. the original requests.
+     csv_row               the model of one jsontocsv row. *)
 From Verif Require Import Prelude Model.Response.
-Theorem C19_placeholder : True. Proof. exact I. Qed.
-Print Assumptions C19_placeholder.
+From Verif Require Import Proofs.Response Proofs.ResponseAgg Proofs.ResponseCsv.
+From Coq Require Import QArith Qabs Permutation.
+Open Scope Z_scope.
+
+(* ---------------------------------------------------------------- the validator decides the specification *)
+Theorem C19_validator : forall o resp, response_ok o resp = true <-> Spec o resp.
+Proof. exact response_ok_spec. Qed.
+Print Assumptions C19_validator.
+
+(* whatever the model of ResultElement.json returns meets the specification (receiver figures exist only for a
+   non-empty path); where Python raises the model returns Err and nothing is reported *)
+Theorem C19_model_meets_spec : forall o r,
+  (o_path o = [] -> o_fwd o = None) -> pathresult o = Ok r -> Spec o r.
+Proof. exact pathresult_spec. Qed.
+Print Assumptions C19_model_meets_spec.
+
+(* ---------------------------------------------------------------- what Spec tells the reader of a response *)
+(* route: per element of the computed path its hop, its labels when served, its transponder when it is a
+   transceiver, in this order, indexed 0,1,2,... and nothing else *)
+Theorem C19_route : forall o resp, Spec o resp -> reports_path o = true ->
+  exists lab, spec_labels o = Some lab /\ stated (route_objects resp) = expected_items o lab /\
+              map classify (route_objects resp) =
+              map (fun p => Some p) (combine (map Z.of_nat (seq 0 (length (route_objects resp)))) (expected_items o lab)).
+Proof. exact Spec_route. Qed.
+Print Assumptions C19_route.
+
+Theorem C19_hop_by_hop : forall o resp, Spec o resp -> reports_path o = true ->
+  hops_of (stated (route_objects resp)) = map h_uid (o_path o).
+Proof. exact Spec_hops. Qed.
+Print Assumptions C19_hop_by_hop.
+
+(* a blocked request carries its reason and no label object; no top-level path-properties *)
+Theorem C19_blocked : forall o resp r, Spec o resp -> o_block o = Some r ->
+  labels_in (stated (route_objects resp)) = [] /\
+  exists kv np, resp = JObj kv /\ jget "no-path" kv = Some (JObj np) /\ jget "no-path" np = Some (JStr r) /\
+                jget "path-properties" kv = None.
+Proof. exact Spec_blocked. Qed.
+Print Assumptions C19_blocked.
+
+(* a served request shows after every hop the assigned labels zip(N, M); its transponder objects show the selected
+   type and mode *)
+Theorem C19_served : forall o resp, Spec o resp -> o_block o = None ->
+  exists n m, o_N o = Some n /\ o_M o = Some m /\
+    labels_in (stated (route_objects resp)) = repeat (combine n m) (length (o_path o)) /\
+    tsps_in (stated (route_objects resp)) = repeat (o_tsp o, o_mode o) (length (filter h_trx (o_path o))).
+Proof. exact Spec_served. Qed.
+Print Assumptions C19_served.
+
+(* metrics: 'path-metric' = forward receiver, 'z-a-path-metric' = reverse receiver, present iff bidirectional *)
+Theorem C19_metrics : forall o resp, Spec o resp -> reports_path o = true ->
+  (exists rx l, o_fwd o = Some rx /\ expected_metrics rx o = Some l /\
+     forall name v, In (name, v) l ->
+       exists jv, read_property (metric_list "path-metric" resp) name = Some jv /\ mval_rel v jv) /\
+  (if o_bidir o then
+     exists rv l, o_rev o = Some rv /\ expected_metrics rv o = Some l /\
+       forall name v, In (name, v) l ->
+         exists jv, read_property (metric_list "z-a-path-metric" resp) name = Some jv /\ mval_rel v jv
+   else pp_field "z-a-path-metric" resp = None).
+Proof. exact Spec_metrics. Qed.
+Print Assumptions C19_metrics.
+
+(* ... whose values are round2 of the exact mean / minimum / maximum of the receiver arrays *)
+Theorem C19_metric_values : forall rx o l, expected_metrics rx o = Some l ->
+  exists m1 m2 m3 m4 lo hi p1 p2 p3,
+    qmean (r_snr rx) = Some m1 /\ qmean (r_snr01 rx) = Some m2 /\ qmean (r_osnr rx) = Some m3 /\
+    qmean (r_osnr01 rx) = Some m4 /\ qmin_list (r_snr01 rx) = Some lo /\ qmax_list (r_snr01 rx) = Some hi /\
+    penalty_val (r_pdl rx) = Some p1 /\ penalty_val (r_cd rx) = Some p2 /\ penalty_val (r_pmd rx) = Some p3 /\
+    l = [(SNR_BW, MNum (round2q m1)); (SNR_01NM, MNum (round2q m2)); (OSNR_BW, MNum (round2q m3));
+         (OSNR_01NM, MNum (round2q m4)); (LOWER_SNR, MNum (round2q lo)); (UPPER_SNR, MNum (round2q hi));
+         (PDL_PEN, p1); (CD_PEN, p2); (PMD_PEN, p3); (REF_POWER, MNum (o_power o)); (PATH_BW, MNum (o_bw o))].
+Proof. exact expected_metrics_values. Qed.
+Print Assumptions C19_metric_values.
+
+Theorem C19_mean : forall l m, qmean l = Some m ->
+  l <> [] /\ (m * inject_Z (Z.of_nat (length l)) == qsum_plain l)%Q.
+Proof. exact qmean_spec. Qed.
+Print Assumptions C19_mean.
+Theorem C19_min : forall l m, qmin_list l = Some m -> In m l /\ forall y, In y l -> (m <= y)%Q.
+Proof. exact qmin_list_spec. Qed.
+Print Assumptions C19_min.
+Theorem C19_max : forall l m, qmax_list l = Some m -> In m l /\ forall y, In y l -> (y <= m)%Q.
+Proof. exact qmax_list_spec. Qed.
+Print Assumptions C19_max.
+
+(* rounding lemma: within half a hundredth, ties to the even hundredth; only the value matters; idempotent *)
+Theorem C19_round2 : forall q,
+  (Qabs (q - round2q q) <= 1 # 200)%Q /\
+  ((Qabs (q - round2q q) == 1 # 200)%Q -> Z.even (round2 q) = true).
+Proof. exact round2_spec. Qed.
+Print Assumptions C19_round2.
+Theorem C19_round2_value : forall q q', (q == q')%Q -> (round2q q == round2q q')%Q.
+Proof. exact round2q_compat. Qed.
+Print Assumptions C19_round2_value.
+Theorem C19_round2_idem : forall q, (round2q (round2q q) == round2q q)%Q.
+Proof. exact round2q_idem. Qed.
+Print Assumptions C19_round2_idem.
+
+(* ---------------------------------------------------------------- aggregation *)
+(* every original request is a member of exactly one reported request; a reported request carries the joined id
+   (absorbing request first), the summed bandwidth, the concatenated N and M lists; its members agree on all
+   compared fields and it absorbed something only if its mode is fixed; total bandwidth is preserved *)
+Theorem C19_aggregation : forall reqs disj out disj',
+  fresh reqs -> requests_aggregation reqs disj = (out, disj') ->
+  Permutation (flat_map a_members out) (map a_tag reqs) /\
+  Forall (joined_ok reqs) out /\
+  (qsum_plain (map a_bw out) == qsum_plain (map a_bw reqs))%Q.
+Proof. exact aggregation_spec. Qed.
+Print Assumptions C19_aggregation.
+
+Theorem C19_aggregation_once : forall reqs disj out disj',
+  fresh reqs -> requests_aggregation reqs disj = (out, disj') ->
+  NoDup (flat_map a_members out) /\ forall r, In r reqs -> In (a_tag r) (flat_map a_members out).
+Proof. exact aggregation_once. Qed.
+Print Assumptions C19_aggregation_once.
+
+(* "identical" is false of the faithful model: `bidir` is not compared (finding F14; the witness is replayed on gnpy
+   by corpus/C19/f14_bidir_lost_in_aggregation.json) *)
+Theorem C19_aggregation_ignores_bidir_refuted :
+  exists reqs out d, fresh reqs /\ requests_aggregation reqs [] = (out, d) /\
+    exists r t, In r out /\ In t (a_members r) /\ bidir_of reqs t = true /\ a_bidir r = false.
+Proof. exact agg_bidir_refuted. Qed.
+Print Assumptions C19_aggregation_ignores_bidir_refuted.
+
+(* ---------------------------------------------------------------- CSV export *)
+Theorem C19_csv_served : forall o resp eqp margin pdbm row,
+  Spec o resp -> o_block o = None -> ends_trx o ->
+  csv_row eqp margin pdbm resp = Ok row ->
+  exists n m src mid dst rx lo mname md,
+    o_N o = Some n /\ o_M o = Some m /\ o_path o = src :: mid ++ [dst] /\
+    o_fwd o = Some rx /\ qmin_list (r_snr01 rx) = Some lo /\
+    o_mode o = Some mname /\ mode_lookup eqp (o_tsp o) mname = Some md /\
+    sget "response-id" row = Some (CStr (o_id o)) /\
+    sget "source" row = Some (CStr (h_uid src)) /\
+    sget "destination" row = Some (CStr (h_uid dst)) /\
+    sget "transponder-type" row = Some (CStr (o_tsp o)) /\
+    sget "transponder-mode" row = Some (CStr mname) /\
+    sget "path" row = Some (CStr (join " | " (map h_uid (o_path o)))) /\
+    sget "spectrum (N,M)" row = Some (CStr (label_str (combine n m))) /\
+    sget "min required OSNR (inc. margin)" row = Some (CNum (m_osnr md + margin)%Q) /\
+    sget "Pass?" row = Some (CBool (Qle_bool (m_osnr md + margin)%Q (round2q lo))) /\
+    (exists c, sget "SNR-0.1nm (min)" row = Some (CNum c) /\ (c == round2q lo)%Q) /\
+    (exists c, sget "path_bandwidth" row = Some (CNum c) /\ (c == round2q (o_bw o / giga))%Q) /\
+    (if o_bidir o then
+       exists rv lo' c, o_rev o = Some rv /\ qmin_list (r_snr01 rv) = Some lo' /\
+                        sget "reversed path SNR-0.1nm (min)" row = Some (CNum c) /\ (c == round2q lo')%Q
+     else sget "reversed path SNR-0.1nm (min)" row = None).
+Proof. exact csv_consistent_served. Qed.
+Print Assumptions C19_csv_served.
+
+Theorem C19_csv_blocked : forall o resp eqp margin pdbm row r,
+  Spec o resp -> o_block o = Some r ->
+  csv_row eqp margin pdbm resp = Ok row ->
+  sget "response-id" row = Some (CStr (o_id o)) /\
+  sget "Pass?" row = Some (CStr r) /\
+  sget "path_bandwidth" row = None /\ sget "nb of tsp pairs" row = None /\
+  if mem_s r BLOCKING_NOPATH then
+    row = [("response-id"%string, CStr (o_id o)); ("Pass?"%string, CStr r)]
+  else
+    ends_trx o ->
+    exists src mid dst mname,
+      o_path o = src :: mid ++ [dst] /\ o_mode o = Some mname /\
+      sget "source" row = Some (CStr (h_uid src)) /\
+      sget "destination" row = Some (CStr (h_uid dst)) /\
+      sget "transponder-type" row = Some (CStr (o_tsp o)) /\
+      sget "transponder-mode" row = Some (CStr mname) /\
+      sget "path" row = Some (CStr (join " | " (map h_uid (o_path o)))) /\
+      sget "spectrum (N,M)" row = Some (CStr "") /\
+      (if o_bidir o then exists c, sget "reversed path SNR-0.1nm (min)" row = Some (CNum c)
+       else sget "reversed path SNR-0.1nm (min)" row = None).
+Proof. exact csv_consistent_blocked. Qed.
+Print Assumptions C19_csv_blocked.
+
+(* the export never raises on a response that meets Spec (path between two transceivers, mode in the library) *)
+Theorem C19_csv_defined : forall o resp eqp margin pdbm,
+  Spec o resp ->
+  (reports_path o = true ->
+     ends_trx o /\
+     exists mname md, o_mode o = Some mname /\ mode_lookup eqp (o_tsp o) mname = Some md /\
+                      (o_block o = None -> ~ (round2q (m_bitrate md / giga) == 0)%Q)) ->
+  exists row, csv_row eqp margin pdbm resp = Ok row.
+Proof. exact csv_defined. Qed.
+Print Assumptions C19_csv_defined.
+
+(* ---------------------------------------------------------------- non-vacuity *)
+Definition ex_rx (d : Q) : rxfig :=
+  mkRx [20 + d; 21 + d; (43 # 2) + d]%Q [(2412345 # 100000) + d; (25 # 1) + d; (2551 # 100) + d]%Q
+       [(22 # 1) + d; (23 # 1) + d]%Q [26 + d; (2705 # 100) + d]%Q
+       (Some [Fin (1 # 4); Fin (1 # 2)]) (Some [Fin (1 # 10); PInf]) None.
+Definition ex_path : list hop :=
+  [mkHop "trx A" true; mkHop "roadm A" false; mkHop "fiber AB" false; mkHop "roadm B" false; mkHop "trx B" true].
+(* served, bidirectional, two slots *)
+Definition ex_served : obs :=
+  mkObs "7 | 3" None true "Voyager" (Some "mode 1"%string) (Some [0; 20]) (Some [4; 8]) ex_path
+        (Some (ex_rx 0)) (Some (ex_rx (3 # 1))) (1 # 1000) (300000000000 # 1).
+(* blocked with a candidate path *)
+Definition ex_blocked : obs :=
+  mkObs "5" (Some "NO_SPECTRUM"%string) false "Voyager" (Some "mode 1"%string) None None ex_path
+        (Some (ex_rx 0)) None (1 # 1000) (100000000000 # 1).
+(* no path at all *)
+Definition ex_nopath : obs :=
+  mkObs "6" (Some "NO_PATH"%string) true "Voyager" (Some "mode 1"%string) None None [] None None (1 # 1000) (100000000000 # 1).
+Definition ex_eqp : eqpt := [("Voyager"%string, [mkMode "mode 1" 12 (32000000000 # 1) (100000000000 # 1) 1])].
+
+Example ex_model_defined :
+  (exists r, pathresult ex_served = Ok r /\ response_ok ex_served r = true) /\
+  (exists r, pathresult ex_blocked = Ok r /\ response_ok ex_blocked r = true) /\
+  (exists r, pathresult ex_nopath = Ok r /\ response_ok ex_nopath r = true).
+Proof. repeat split; eexists; split; vm_compute; reflexivity. Qed.
+
+Example ex_hypotheses : ends_trx ex_served /\ reports_path ex_served = true /\ reports_path ex_nopath = false /\
+  (o_path ex_served = [] -> o_fwd ex_served = None).
+Proof.
+  split; [exists (mkHop "trx A" true), [mkHop "roadm A" false; mkHop "fiber AB" false; mkHop "roadm B" false],
+                 (mkHop "trx B" true); repeat split|].
+  repeat split. discriminate.
+Qed.
+
+(* the validator rejects a response that reports the forward figures as reverse figures, and one with labels on a
+   blocked request *)
+Example ex_rejects :
+  (exists r, pathresult ex_served = Ok r /\
+             response_ok (mkObs "7 | 3" None true "Voyager" (Some "mode 1"%string) (Some [0; 20]) (Some [4; 8]) ex_path
+                                (Some (ex_rx 0)) (Some (ex_rx (1 # 1))) (1 # 1000) (300000000000 # 1)) r = false) /\
+  (exists r, pathresult ex_served = Ok r /\
+             response_ok (mkObs "7 | 3" (Some "NO_SPECTRUM"%string) true "Voyager" (Some "mode 1"%string) None None ex_path
+                                (Some (ex_rx 0)) (Some (ex_rx (3 # 1))) (1 # 1000) (300000000000 # 1)) r = false).
+Proof. split; eexists; split; vm_compute; reflexivity. Qed.
+
+(* CSV of the served example: pass flag true (24.12 >= 12 + 2), of a variant with margin 13: false *)
+Example ex_csv :
+  (exists r row, pathresult ex_served = Ok r /\ csv_row ex_eqp 2 0 r = Ok row /\ sget "Pass?" row = Some (CBool true) /\
+                 sget "spectrum (N,M)" row = Some (CStr "[0, 20], [4, 8]")) /\
+  (exists r row, pathresult ex_served = Ok r /\ csv_row ex_eqp 13 0 r = Ok row /\ sget "Pass?" row = Some (CBool false)).
+Proof. split; do 2 eexists; repeat split; vm_compute; reflexivity. Qed.
+
+(* aggregation: requests 0 and 2 are identical (fixed mode) and are joined into "2 | 0"; request 1 has no mode *)
+Definition ex_k (mode : fld) : list fld := [FStr "trx A"; FStr "trx B"; FStr "Voyager"; mode; FNum (50 # 1)].
+Definition ex_reqs : list areq :=
+  [mkA 0 "0" [0%nat] (ex_k (FStr "mode 1")) true (100 # 1) [Some 0] [Some 4] false;
+   mkA 1 "1" [1%nat] (ex_k FNone) false (200 # 1) [None] [None] false;
+   mkA 2 "2" [2%nat] (ex_k (FStr "mode 1")) true (300 # 1) [Some 16] [Some 4] false].
+Example ex_aggregation : fresh ex_reqs /\
+  exists d, requests_aggregation ex_reqs [["1"; "9"]%string] =
+    ([mkA 1 "1" [1%nat] (ex_k FNone) false (200 # 1) [None] [None] false;
+      mkA 2 "2 | 0" [2%nat; 0%nat] (ex_k (FStr "mode 1")) true ((300 # 1) + (100 # 1)) [Some 16; Some 0] [Some 4; Some 4] false], d).
+Proof.
+  split; [split; [repeat constructor; cbn; intuition discriminate|repeat constructor]|].
+  eexists. vm_compute. reflexivity.
+Qed.
